@@ -111,13 +111,15 @@ func vNestArray(maxLen int) jsonArray {
 func vObjDoc(depth int) jsonObject {
 	o := jsonObject{}
 	for _, k := range []string{"a", "b"} {
-		switch vChoice(4) {
+		switch vChoice(4 + vParam("EMPTYOBJ", 0)) {
 		case 0:
 			// absent
 		case 1:
 			o[k] = vNum()
 		case 2:
 			o[k] = vNumArray(vParam("INNER", 1))
+		case 4:
+			o[k] = jsonObject{}
 		default:
 			if depth > 0 {
 				o[k] = vObjDoc(depth - 1)
